@@ -86,14 +86,13 @@ example : prepare { pitch := some [60, 64], cols := [("duration_sec", [1, 2]), (
     some [(60, 0, 1), (64, 1/2, 2)] := by decide +kernel
 
 /-- `estimate_voices` on a structured array, `monophonic_voices` either way, any unit: when the
-    array has the selected fields and at least one row, and the modelled search answers, every row gets
-    one voice ≥ 1, numbered without gaps.  PARTIAL for the same reason as `voices_total_partial`. -/
-theorem voices_array_total_partial (offs : List Rat) (mono : Bool) (a : NoteArray) (notes : List Voices.VNote)
-    (hp : prepare a = some notes) (hne : notes ≠ []) (hl : offs.length = notes.length)
-    (hrun : ∀ rows, Vosa.withOffsets offs (Voices.vosaInput mono notes) = some rows → (Vosa.run rows).isSome) :
+    array has the selected fields and at least one row, every row gets one voice ≥ 1, numbered
+    without gaps (nothing assumed about the search) -/
+theorem voices_array_total (offs : List Rat) (mono : Bool) (a : NoteArray) (notes : List Voices.VNote)
+    (hp : prepare a = some notes) (hne : notes ≠ []) (hl : offs.length = notes.length) :
     ∃ out, estimateVoicesArr offs mono a = some out ∧ out.length = notes.length ∧
       (∀ x ∈ out, 1 ≤ x) ∧ ∃ k : Int, ∀ x, x ∈ out ↔ 1 ≤ x ∧ x ≤ k := by
-  obtain ⟨out, h1, h2⟩ := voices_total_partial offs mono notes hne hl hrun
+  obtain ⟨out, h1, h2⟩ := voices_total offs mono notes hne hl
   exact ⟨out, by simp [estimateVoicesArr, hp, h1], h2⟩
 
 /-- chord mode on arrays: rows that agree in the SELECTED onset and duration fields share a voice -/
@@ -126,6 +125,8 @@ theorem valid_profile_names_accepted :
 theorem invalid_profile_name_rejected (n : String) (h : n ∉ VALID_KEY_PROFILES) :
     estimateKeySet (some n) = none := by
   simp [estimateKeySet, h]
+
+example : "ks" ∉ VALID_KEY_PROFILES ∧ estimateKeySet (some "ks") = none ∧ ksKidSet "ks" = some .kk := by decide
 
 /-- the aliases: `kk` / `krumhansl_kessler` / no argument select the Krumhansl-Kessler profiles,
     `tp` / `temperley` the Temperley (CBMS) profiles, `kp` / `kostka_payne` the Kostka-Payne profiles -/
